@@ -281,21 +281,36 @@ def run():
 
     # (a) corpus
     R.stream("corpus", L.CORPUS)
-    # (b) exhaustive over the lexical alphabet
-    n_ex = ck.n(3, 4)
+    # (b) exhaustive over the lexical alphabet: all strings of length <= 3; in the thorough tier also all of length 4
+    #     when the measured rate allows it within ~15 minutes (otherwise a seeded sample of that length, recorded)
+    import itertools
+    n_ex = 3
     t0 = time.time()
-    R.stream("exhaustive", L.exhaustive(L.ALPHABET, n_ex))
+    R.stream("exhaustive", L.exhaustive(L.ALPHABET, 3))
     ex_s = time.time() - t0
+    n3 = sum(len(L.ALPHABET) ** i for i in range(1, 4))
+    rate = n3 / max(ex_s, 1e-3)
+    n4 = len(L.ALPHABET) ** 4
+    budget_note = None
+    if ck.thorough:
+        if n4 / rate <= 900:
+            t1 = time.time()
+            R.stream("exhaustive", ("".join(x) for x in itertools.product(L.ALPHABET, repeat=4)))
+            ex_s += time.time() - t1
+            n_ex = 4
+        else:
+            budget_note = "length 4 not enumerated: measured %.0f cases/s, %d strings would take %.0f s" % (rate, n4, n4 / rate)
     #     seeded sample of the next length
     k = n_ex + 1
-    sample = ["".join(ck.rng.choice(L.ALPHABET) for _ in range(k)) for _ in range(ck.n(15000, 150000))]
+    n_sample = ck.n(8000, 60000) if budget_note is None else int(min(300000, rate * 600))
+    sample = ["".join(ck.rng.choice(L.ALPHABET) for _ in range(k)) for _ in range(n_sample)]
     R.stream("sample-next-length", sample)
     # (c) random longer strings
-    R.stream("random", gen_random(ck, ck.n(4000, 60000)))
+    R.stream("random", gen_random(ck, ck.n(3000, 30000)))
 
     ck.coverage["alphabet"] = L.ALPHABET
     ck.coverage["exhaustive"] = {"max_length": n_ex, "strings": sum(len(L.ALPHABET) ** i for i in range(1, n_ex + 1)), "seconds": round(ex_s, 1),
-                                 "sampled_length": k, "sampled": len(sample)}
+                                 "cases_per_s_end_to_end": round(rate, 1), "sampled_length": k, "sampled": len(sample), "note": budget_note}
     ck.coverage["rates"] = {"model_cases_per_s": round(R.n_model / R.t_model, 1) if R.t_model else None,
                             "implementation_cases_per_s": round(R.n_impl / R.t_impl, 1) if R.t_impl else None,
                             "model_cases": R.n_model, "distinct_slices_relexed": len(R.relex_cache)}
